@@ -463,6 +463,43 @@ pub fn check_execution(p: &Prepared, out: &Outcome) -> Quiescent {
             }
         }
     }
+    // ---- C09 (under concurrency): an Err is returned only by the call whose body produced it and never
+    // touches the cache; an Ok that some call stored stays stored whatever Err arrives later
+    for f in &p.funcs {
+        if !f.is_result || f.flavour == Flavour::Thread || f.limit.is_some() || f.ttl.is_some() || f.mem.is_some() || f.has_cache_if || f.has_inval_on || evicting {
+            continue;
+        }
+        let listed: BTreeSet<String> = l1::list_keys(f.name).unwrap_or_default().into_iter().collect();
+        let mut keys: BTreeSet<u32> = BTreeSet::new();
+        let calls: Vec<&OpEvent> = events.iter().filter(|e| matches!(&e.op, TOp::Call { f: ff, .. } if *ff == f.id)).collect();
+        for e in &calls {
+            if let TOp::Call { k, .. } = &e.op {
+                keys.insert(*k);
+                if e.result.starts_with("Err(") && !e.executed {
+                    fs.push(TFinding { property: "C09", monitor: format!("{flav}/err-served-from-cache-under-concurrency"), detail: format!("thread {} call {}({k}) returned {} without running the body", e.thread, f.fn_name, e.result) });
+                }
+            }
+        }
+        let setup_keys: BTreeSet<u32> = d.setup.iter().filter_map(|s| if let SOp::Op(TOp::Call { f: ff, k }) = s { if *ff == f.id { Some(*k) } else { None } } else { None }).collect();
+        for k in keys {
+            let of_key: Vec<&&OpEvent> = calls.iter().filter(|e| matches!(&e.op, TOp::Call { k: kk, .. } if *kk == k)).collect();
+            let some_ok = setup_keys.contains(&k) || of_key.iter().any(|e| e.executed && e.result.starts_with("Ok("));
+            let is_listed = listed.contains(&k.to_string());
+            if some_ok && !is_listed {
+                fs.push(TFinding { property: "C09", monitor: format!("{flav}/stored-ok-lost-under-concurrency"), detail: format!("{}({k}): a call produced Ok and stored it, every caller has returned, and the cache holds {:?}", f.fn_name, listed) });
+            }
+            if !some_ok && is_listed {
+                fs.push(TFinding { property: "C09", monitor: format!("{flav}/err-stored-under-concurrency"), detail: format!("{}({k}): every execution returned Err and the key is cached", f.fn_name) });
+            }
+            // once a call that produced Ok has returned, later calls are served
+            for e in of_key.iter().filter(|e| e.executed) {
+                let earlier_ok = setup_keys.contains(&k) || of_key.iter().any(|o| o.executed && o.result.starts_with("Ok(") && o.end < e.start);
+                if earlier_ok {
+                    fs.push(TFinding { property: "C09", monitor: format!("{flav}/ok-not-reused-under-concurrency"), detail: format!("thread {} executed {}({k}) although a call that returned Ok had already completed", e.thread, f.fn_name) });
+                }
+            }
+        }
+    }
     // ---- C14: thread scope behaves as if each thread ran alone; global scope shares
     if let Some(iso) = p.iso.lock().unwrap().as_ref() {
         for (t, want) in iso.iter().enumerate() {
@@ -1012,6 +1049,18 @@ pub fn drivers_for(property: &str, thorough: bool) -> Vec<Driver> {
                         push(format!("{}:3 threads 2 keys", f.fn_name), vec![], vec![vec![call(f, 1), call(f, 2)], vec![call(f, 2)], vec![call(f, 1)]], None, false);
                         push(format!("{}:same-key x3 then again", f.fn_name), vec![], vec![vec![call(f, 1), call(f, 1)], vec![call(f, 1)], vec![call(f, 1)]], None, false);
                     }
+                }
+            }
+        }
+        "C09" => {
+            for f in FUNCS.iter().filter(|f| f.family == "result" && f.flavour != Flavour::Thread && f.policy.is_none() && f.limit.is_none() && f.ttl.is_none() && f.mem.is_none() && !f.has_inval_on) {
+                // every body outcome (Ok / Err) is a further branch of the exploration
+                push(format!("{}:same-key x2", f.fn_name), vec![], vec![vec![call(f, 1)], vec![call(f, 1)]], None, false);
+                push(format!("{}:same-key then again", f.fn_name), vec![], vec![vec![call(f, 1), call(f, 1)], vec![call(f, 1)]], None, false);
+                push(format!("{}:resident + late caller", f.fn_name), vec![SOp::Op(call(f, 2))], vec![vec![call(f, 1), call(f, 2)], vec![call(f, 1)]], None, false);
+                if thorough {
+                    push(format!("{}:same-key x3", f.fn_name), vec![], vec![vec![call(f, 1)], vec![call(f, 1)], vec![call(f, 1)]], None, false);
+                    push(format!("{}:two keys crossing", f.fn_name), vec![], vec![vec![call(f, 1), call(f, 2)], vec![call(f, 2), call(f, 1)]], None, false);
                 }
             }
         }
